@@ -1,6 +1,6 @@
 \* negative control: no wrapping across north
 CONSTANTS
-  HalfWindows = {22}
+  HalfWindows = {44}
   WrapStyle = "none"
   Rotations = {90}
 INIT Init
